@@ -433,6 +433,11 @@ inductive Kw
   | additionalProperties (j : JS) | propertyNames (j : JS)
   | minProperties (n : Nat) | maxProperties (n : Nat)
   | anyOf (js : JSList) | oneOf (js : JSList) | allOf (js : JSList) | not (j : JS)
+  -- keywords that only occur in documents given to FromJSONSchema (C11)
+  | types (ts : List TypeName)                 -- "type": [..]
+  | format (name : Str) (good : List Str)      -- `good` = the strings of the case's universe that satisfy the format
+  | ref (target : JS)                          -- "$ref", with the (non-recursive) target resolved in place
+  | other (name : Str)                         -- any keyword outside this AST (semantics not modelled)
 inductive KwList
   | nil | cons (k : Kw) (ks : KwList)
 inductive JSList
@@ -483,6 +488,11 @@ def Pat.holds : Pat → Str → Bool
   | .has p, s => isInfix p s
   | .noUp, s => noUpper s
   | .noLow, s => noLower s
+
+/-- the format names FromJSONSchema maps to a dedicated schema (`getFormatSchema`); any other
+    format is an annotation. -/
+def knownFormats : List Str :=
+  ["email", "uuid", "uri", "url", "date-time", "date", "time", "ipv4", "ipv6"].map (fun s => s.toList.map Char.toNat)
 
 def typeOk : TypeName → Json → Bool
   | .string, .str _ => true
@@ -566,6 +576,12 @@ def kwValid : Kw → Ctx → Json → Bool
   | .oneOf js, _, x => countValid js x == 1
   | .allOf js, _, x => allValid js x
   | .not j, _, x => !jsValid j x
+  | .types ts, _, x => ts.any (fun t => typeOk t x)
+  | .format name good, _, x => match x with   -- read as an assertion, relative to the case's universe
+      | .str s => !knownFormats.contains name || good.contains s
+      | _ => true
+  | .ref j, _, x => jsValid j x
+  | .other _, _, _ => true                    -- NOT the keyword's meaning: documents with `other` are out of scope
 
 def prefixValid : JSList → JsonList → Bool
   | .nil, _ => true
@@ -857,6 +873,7 @@ def wfKw : Kw → Bool
   | .oneOf js => wfList js && decide (0 < js.length)
   | .allOf js => wfList js && decide (0 < js.length)
   | .not j => wfJS j
+  | .ref j => wfJS j
   | _ => true
 def wfList : JSList → Bool
   | .nil => true
